@@ -299,3 +299,13 @@ def run(ck, prog):
 
 
 EXPLANATION += (" Cholesky: a pivot that is not strictly positive is refused (a zero pivot is the next row's divisor; found and fixed: NaN factors for indefinite matrices). SVD::solve: the rows stored are bounded by the row count of the matrix stored into (found and fixed: out-of-range writes for every wide system).")
+
+
+# ------------------------------------------------------------------ generic: `while counter < bound` loops advance their counter
+_run_pre_progress = run
+
+
+def run(ck, prog):
+    _run_pre_progress(ck, prog)
+    from sa import progress
+    progress.run_rule(ck, prog, set(DIMENSION_FILES))
